@@ -73,7 +73,7 @@ CLAIMED = {
         technique="bounded model checking (Kani/CBMC SAT) of the real affinity-mask code; SMT symbolic execution (z3 bit-vectors over the compiler's MIR) of the range arithmetic of cpulist::emit for every u32",
         design_ref="DESIGN.md §4 C11",
         text="Two clauses of C11 are decided. (1) Affinity mask (Kani): BitPosition::{of,bit,processor_id} round-trips for EVERY u32 processor id (word index, single bit, id reconstructed); a 1-word and a 2-word CpuMask with a solver-chosen id inserted into each: membership observed at an arbitrary id equals the inserted set, equality holds iff the sets are equal whatever the widths (also with an arbitrary second word), width never changes; enumeration of a one-word mask with a solver-chosen word (<= 2 bits) yields ascending ids, one per bit; insert as an inductive step from an ARBITRARY prior content of a 1-word and a 2-word mask adds exactly one bit and keeps every member and the width. "
-             "(2) Id-list codec, emit side (mirsym, MIR -> z3, no bound on the values): the grouping step of cpulist::emit (the fold_while closure) from an ARBITRARY accumulator satisfying the run invariant and an arbitrary next id does not panic and returns exactly the specified accumulator; the emission of one group (the loop body inside emit) does not panic for EVERY (start, len) with start+len-1 <= u32::MAX - including runs that end at u32::MAX - and the formatted tokens (n | a,b | a-b) denote exactly the ids start..=start+len-1 for an arbitrary probe id. "
+             "(2) Id-list codec, emit side (mirsym, MIR -> z3, no bound on the values): the grouping step of cpulist::emit (the fold_while closure) from an ARBITRARY accumulator satisfying the run invariant and an arbitrary next id does not panic and returns exactly the specified accumulator; the emission of one group (the loop body inside emit) does not panic for EVERY (start, len) with start+len-1 <= u32::MAX - including runs that end at u32::MAX - and the formatted tokens (n | a,b | a-b) denote exactly the ids start..=start+len-1 for an arbitrary probe id; the outer loop body records the fold's (start, len) unchanged and removes exactly len ids (one inductive step of the removal loop). "
              "Parse side (mirsym check cpulist_parse_range, whole MIR of cpulist::parse_range with the std string calls opaque - an arbitrary result per distinct text): never panics (step_by is never reached with a zero stride), returns Err exactly when a number fails to parse, the stride is 0 or start > end, and otherwise Ok(collect(start..=end step stride)) of the numbers parsed from the right pieces of the text (stride 1 without a ':' part); every well-formed range is accepted. The emit check found a genuine defect (emit panicked for every run of >= 3 ids ending at u32::MAX), reproduced natively and repaired by /repo commit 17418ce (known_findings.json, fixed). "
              "The Linux inventory parsing, the std string / iterator functions under cpulist::parse (str::parse, split, sorted, dedup) and the container / hashing / formatting code around emit's arithmetic are outside the claim (they do not fit a solver-based encoding here). Bounded (mask widths) resp. complete over u32 (arithmetic), not a proof of the whole clause.",
         note="Trusts Kani/CBMC/CaDiCaL, smallvec (resize modelled), rustc's MIR, the mirsym semantic table for core integer/Option methods, z3. Partial claim: the mask and emit's range arithmetic only.",
